@@ -149,8 +149,12 @@ Print Assumptions C15_edit_dict_before_fix.
 Definition C15_load_dump_full_statement : Prop := forall c, dicts_wf c = true -> load_dump_statement c.
 
 (* It holds for every circuit (any number of sub-circuits, nodes, operators, edges, edge templates; hierarchy
-   depth 0 and 1) inside the guard WFy = dictionaries have unique keys /\ all templates of one name are written
-   as one and the same dict (no_rename) /\ node-level overrides are on constants only (const_overrides). *)
+   depth 0 and 1) inside the guard WFy, which since fix D67 is just no_rename: all templates of one name are written as
+   one and the same dict (Yaml.v: WFy := no_rename; before D67/D53 it also demanded unique dict keys and overrides on
+   constants only).  NOTE the finding C15-D10c-rename is attributed with the WEAKER guard no_critical_rename (only a renamed
+   operator or edge template matters); circuits with no_rename = false and no_critical_rename = true (only node / circuit
+   templates renamed) are outside this theorem and covered by two computed witnesses (C15_between_guards) and by the
+   correspondence runs only. *)
 Theorem C15_load_dump_partial : forall c, WFy c = true -> option_map denote (roundtrip c) = Some (denote c).
 Proof. exact load_dump. Qed.
 Print Assumptions C15_load_dump_partial.
@@ -160,16 +164,25 @@ Theorem C15_dump_pure : forall c, no_rename c = true -> exists st, dump c = (c_n
 Proof. exact dump_pure. Qed.
 Print Assumptions C15_dump_pure.
 
-(* each guard is needed (computed witnesses; the same circuits fail on the real code, corpus/C15) *)
-Theorem C15_load_dump_refuted_rename : exists c, no_rename c = false /\ ~ load_dump_statement c.
+(* the guard is needed (computed witness: two different operator templates of one name; the same circuit fails on the
+   real code, corpus/C15/D10c_two_operators_one_name.json) *)
+Theorem C15_load_dump_refuted_rename : exists c, dicts_wf c = true /\ no_rename c = false /\ no_critical_rename c = false /\ ~ load_dump_statement c.
 Proof. exact load_dump_refuted_rename. Qed.
 Print Assumptions C15_load_dump_refuted_rename.
+Theorem C15_between_guards :
+  (no_rename w_rename = false /\ no_critical_rename w_rename = true /\ roundtrip_ok w_rename = true) /\
+  (no_rename w_three = false /\ no_critical_rename w_three = true /\ roundtrip_ok w_three = true).
+Proof. exact load_dump_between_guards. Qed.
+Print Assumptions C15_between_guards.
 Theorem C15_shared_operator_variants_roundtrip :
   roundtrip_ok w_rename = true /\ roundtrip_ok w_three = true.
 Proof. exact load_dump_shared_operator_variants. Qed.
 Print Assumptions C15_shared_operator_variants_roundtrip.
 
-(* template sets spread over several files (the functions mload_circ, mload_flat, mload_node, mload_op of Yaml.v): the template loaded for a node / sub-circuit key depends on the
+(* DEFINITIONAL / generic: a fact about mapM for any loader f; it does not mention `resolve`.  Note that mdenote, the Spec of
+   the YAML frontend, is defined THROUGH the model loader mload_circ (Spec and Impl coincide there); what ties it to the code
+   is the mfile stream: from_yaml's result against mdenote and against the same model built with the Python classes.
+   Template sets spread over several files (the functions mload_circ, mload_flat, mload_node, mload_op of Yaml.v): the template loaded for a node / sub-circuit key depends on the
    file of the referencing template and on ITS OWN reference only — a bare name is looked up in the referencing file whatever
    the neighbouring references point to (seed C15-m5 breaks exactly this) *)
 Theorem C15_references_pointwise : forall A (f : ref -> option A) l l', mload_keyed f l = Some l' ->
@@ -177,7 +190,8 @@ Theorem C15_references_pointwise : forall A (f : ref -> option A) l l', mload_ke
 Proof. exact @mload_keyed_pointwise. Qed.
 Print Assumptions C15_references_pointwise.
 
-(* Population / Connectivity circuits: there is no YAML representation.  Since fix D116 to_yaml refuses them, so the round
+(* DEFINITIONAL (reflexivity on a two-constructor definition; no mechanism is modelled — the refusal itself is tied to the
+   code by the `pop` stream and the D116 revert test only).  Population / Connectivity circuits: there is no YAML representation.  Since fix D116 to_yaml refuses them, so the round
    trip never yields a silently different circuit; before the fix the population was written as one plain node *)
 Theorem C15_populations_refused : pop_spec_ok (dump_populations fixed_populations_refused) = true.
 Proof. reflexivity. Qed.
